@@ -390,7 +390,7 @@ def handle_set(config, error, to_set):
                         raise ValueError
                     if not isinstance(val, int):
                         val = int(val, 16)  # input can be a decimal JSON value or a string of hex digits
-                    sym.set_value(hex(val))
+                    set_number(sym, hex(val), error)
                 except (ValueError, TypeError):
                     error.append(f"Hex symbol {sym.name} can accept a decimal integer or a string of hex digits, only")
             elif sym.type == kconfiglib.STRING and not isinstance(val, str):
@@ -400,7 +400,9 @@ def handle_set(config, error, to_set):
                     error.append(f"Float symbol {sym.name} requires a valid float value")
                 else:
                     # Accept float, int, or string representation of a float
-                    sym.set_value(str(val))
+                    set_number(sym, str(val), error)
+            elif sym.type == kconfiglib.INT:
+                set_number(sym, str(val), error)
             else:
                 sym.set_value(str(val))
             log.print(f"Set {sym.name}", file=sys.stderr)
@@ -410,6 +412,21 @@ def handle_set(config, error, to_set):
         error.append(
             f"The following config symbol(s) were not visible so were not updated: {', '.join(s.name for s in to_set)}"
         )
+
+
+def set_number(sym, value, error):
+    """
+    Set the user value of an int/hex/float symbol. A value the symbol does not take on (e.g. because it is
+    outside of the active range) is an invalid change: it is reported and the previous user value is kept,
+    so that the symbol is not marked as user-set by a value that never had any effect.
+    """
+    previous = sym._user_value
+    if sym.set_value(value) and sym.str_value != sym._user_value:
+        if previous is None:
+            sym.unset_value()
+        else:
+            sym.set_value(previous)
+        error.append(f"Value {value} is not accepted by symbol {sym.name} (out of range?)")
 
 
 def diff(before, after):
